@@ -44,7 +44,7 @@ def pending_native(ds):
     return diff
 
 
-def h_step(x, op, lazy=True, na=2, flush_first=False):
+def h_step(x, op, lazy=True, na=2, flush_first=False, other_store=False):
     A = ST.sym_rows(x, "a", na)
     B = ST.sym_rows(x, "b", 1)
     ST.distinct(x, [r.id for r in A + B])
@@ -117,6 +117,21 @@ def h_step(x, op, lazy=True, na=2, flush_first=False):
                 mark = len(conn.log)
             w0 = 0
         new = ST.sym_rows(x, "n", 2, ids=False)
+        if other_store:
+            # a second store object (its own file) is alive in the process and has just been written and flushed:
+            # nothing of that may leak into this store's commit bookkeeping
+            from aw_datastore import Datastore as _DS
+            from aw_datastore.storages import SqliteStorage as _SQS
+
+            path2 = "/stub/other-%d.db" % id(x) if x.sym else os.path.join(be.tmp, "other.db")
+            ds2 = _DS(_SQS, testing=True, filepath=path2, enable_lazy_commit=True)
+            ds2.create_bucket("O", "t", "c", "h", created=ST.T0)
+            ds2["O"].insert(ST.event_of_row(x, new[1]))
+            ds2["O"].get_eventcount()
+            clock.n = 0
+            clock.calls = []
+            if x.sym:
+                mark = len(conn.log)
         if op == "insert_one":
             b.insert(ST.event_of_row(x, new[0]))
         elif op == "insert_many_new":
@@ -401,6 +416,8 @@ def harnesses(tier, prop=PROP, fn=None):
             hs.append((Harness(prop, "sqlite-lazy-after-own-flush-%s" % op, fn, dict(op=op, lazy=True, flush_first=True), "sqlite (lazy commit): a read flushes (the code records the time itself), then %s delta later" % op, split_depth=6), 1800))
     for op in ops:
         hs.append((Harness(prop, "sqlite-lazy-%s" % op, fn, dict(op=op, lazy=True), "sqlite (lazy commit): %s from an arbitrary commit-machinery state (counter, buffered writes, age of last flush symbolic)" % op, split_depth=6), 1800))
+    for op in ["insert_one", "replace_last"]:
+        hs.append((Harness(prop, "sqlite-lazy-%s-second-store-active" % op, fn, dict(op=op, lazy=True, other_store=True), "sqlite (lazy commit): %s while a second store object in the same process has just written and flushed" % op, split_depth=6), 1800))
     for L in ([2] if tier == "quick" else [2, 3, 4]):
         hs.append((Harness(prop, "sqlite-lazy-history-L%d" % L, h_history, dict(L=L, which=prop), "sqlite (lazy commit): every history of %d operations out of %s with arbitrary gaps (0..40 days) between them, crash after each" % (L, HIST_OPS), split_depth=8), 3600))
     if prop == "C06":
@@ -418,6 +435,7 @@ def meta(chk, tier):
     chk.bounds = [
         "single step from an arbitrary state: num_uncommitted_statements n0 in [0,50], buffered elementary writes w0 <= n0, last flush at any instant, clock readings any non-decreasing instants up to 1000 s later",
         "two buckets with 2+1 events; every operation kind; lazy and eager commit modes",
+        "a second SqliteStorage object (own file) alive and just flushed, for insert_one and replace_last",
         "histories of 2 (thorough: up to 4) operations (insert, replace_last, delete, read, bucket update) with symbolic gaps of 0..40 days, counter start symbolic in [0,50], crash after every operation",
     ]
     chk.stubs = ["sqlite3 -> symex.sqlstub: committed snapshot vs working copy; commit() copies working -> committed; a crash discards the working copy",
